@@ -841,6 +841,12 @@ static void wide_external(const u64vec *V) {
     }
 }
 
+#ifndef NO_HYGIENE
+#define HYG_SCALAR 1
+#include "hygiene.h"
+#include "hygiene_gen.h"
+#endif
+
 /* ------------------------------------------------------------------ C01 / C04 driver */
 static uint64_t prefix_bits(void) {
     const char *e = getenv("VERIF_PREFIX_BITS");
@@ -951,6 +957,12 @@ static void run_c01_c04(void) {
     if (P_C01) {
         signed_helpers(&V);
         wide_external(&V);
+#ifndef NO_HYGIENE
+        if (vh_section_begin("macro_hygiene") && vh_case()) {
+            hygiene_scalar();
+            vh_count("cases", 1);
+        }
+#endif
     }
     if (P_C04) {
         /* the bit writer / reader themselves (exposed for advanced use): every start position 0..71 x width 1..64 x
